@@ -262,8 +262,14 @@ def parseREvents (toks : List String) : Option (List REvent) := do
     else if t == "t" then some [REvent.error]   -- a read timeout is an I/O error like any other
     else if t == "z" then some [REvent.eof]
     else if t == "n" then some [REvent.interrupted]   -- the reader used the codec itself, then "interrupted"
+    else if t == "x" then some [REvent.error]         -- an I/O error is an I/O error, whatever its payload
+    else if t.startsWith "s:" then some []             -- the reader takes its time: not an event of the model
     else match t.splitOn ":" with
       | ["d", hx] => (parseHex hx).map (·.map REvent.byte)
+      | ["r", n, b] => do
+          let n ← n.toNat?
+          let bs ← parseHex b
+          pure (List.replicate n (REvent.byte (bs.headD 0)))
       | _ => none
   pure parts.flatten
 
@@ -271,7 +277,7 @@ def parseWEvents (toks : List String) : Option (List WEvent) :=
   -- `F` (the port's flush() fails from now on) is not an event of the model: the library never flushes
   (toks.filter (· != "F")).mapM fun t =>
     if t == "i" then some WEvent.interrupted
-    else if t == "e" then some WEvent.error
+    else if t == "e" || t == "x" then some WEvent.error
     else match t.splitOn ":" with
       | ["a", n] => n.toNat?.map WEvent.accept
       | _ => none
@@ -502,6 +508,12 @@ def handle (line : String) : String :=
       -- (`Data.tryNew` is the only constructor of the model); the implementation side probes which exist
       let _ ← n.toNat?
       pure "fits"
+  | ["bigpageeq", w, h] => orBad do
+      -- pages are equal iff width, height and bytes are (derived equality of the record): two all-zero pages of the
+      -- same size are equal and hash alike; one set pixel makes them differ (C06.get_set_same)
+      let _ ← w.toNat?
+      let _ ← h.toNat?
+      pure "eq=1 hash-eq=1 after-set-eq=0"
   | ["bigpage", w, h, x, y] => orBad do
       -- a page too large to build as a list: where `set_pixel` writes is `Page.indices`, which reads the
       -- dimensions only (the bytes of this page value are never looked at)
@@ -568,6 +580,10 @@ def handle (line : String) : String :=
       | [ms, rd, wr] =>
         let r := serialMultiCase false (← ms.mapM parseMsg) (← parseREvents rd) (← parseWEvents wr)
         pure (if wr.contains "F" then r ++ " [flush-fails]" else r)
+      | _ => none
+  | "serialmte" :: _wms :: _rms :: rest => orBad do
+      match splitBar rest with
+      | [ms, rd, wr] => pure (serialMultiCase true (← ms.mapM parseMsg) (← parseREvents rd) (← parseWEvents wr))
       | _ => none
   | "serialmts" :: _wms :: _rms :: rest => orBad do
       match splitBar rest with
